@@ -109,6 +109,8 @@ SCRIPTS = [
     'inv.stop.entry:wait:PRE:100,inv.run.predone:set:PRE',
     # stop has reset the flags and cancelled; hold the join until the child reached predone
     'inv.stop.prejoin:wait:PRE:100,inv.run.predone:set:PRE',
+    # the invoking thread dwells right after it started the child's thread: the child runs (and may finish) before invoke() has returned
+    'inv.start.done:sleep:8000*', 'inv.start.done:sleep:8000*',
     'inv.stop.prejoin:sleep:3000*', 'inv.run.predone:sleep:5000*', 'inv.stop.entry:sleep:2000*',
     'beq.enqueue.pre:sleep:300*', 'deq.timer.unlocked:sleep:500*',
 ]
@@ -207,6 +209,9 @@ def analyse(recs, p):
             if finished: stats['finished_children'] += 1
             if cancelled: stats['cancelled_children'] += 1
             if overlap: stats['overlaps'] += 1
+            # a cancelled session still leaves its states (onexit handlers) and completes before the cancellation returns
+            if iv['ua'] is not None and t is not None and not any(r[3] == 'KA' and r[0] < iv['ua'] for r in rs):
+                bad.append(('cancelled-child-never-completed', {'id': c, 'exited_state_a': bool([r for r in rs if r[3] == 'XB' and r[4].endswith(' a')]), 'records': len(rs)}))
             # silence after cancellation returned
             if iv['ua'] is not None:
                 late = [r for r in rs if r[0] > iv['ua']]
